@@ -216,6 +216,29 @@ func (p *FloatingIPPlugin) unbind(pod *corev1.Pod) error {
 	return p.unbindNoneDpPod(keyObj, policy, "during unbinding pod")
 }
 
+// unassignIPsOfKey asks the cloud provider to unassign every ip of key that is still recorded on a node. It is called
+// before reserveIP(key, key), which clears the node of all ips of the key and not only of the one being handled.
+func (p *FloatingIPPlugin) unassignIPsOfKey(key, when string) error {
+	ipInfos, err := p.ipam.ByKeyAndIPRanges(key, nil)
+	if err != nil {
+		return fmt.Errorf("query floating ip by key %s: %v", key, err)
+	}
+	for _, ipInfo := range ipInfos {
+		if ipInfo == nil || ipInfo.NodeName == "" {
+			continue
+		}
+		ipStr := ipInfo.IPInfo.IP.IP.String()
+		glog.Infof("UnAssignIP nodeName %s, ip %s, key %s %s", ipInfo.NodeName, ipStr, key, when)
+		if err := p.cloudProviderUnAssignIP(&rpc.UnAssignIPRequest{
+			NodeName:  ipInfo.NodeName,
+			IPAddress: ipStr,
+		}); err != nil {
+			return fmt.Errorf("UnAssignIP nodeName %s, ip %s, key %s: %v", ipInfo.NodeName, ipStr, key, err)
+		}
+	}
+	return nil
+}
+
 func (p *FloatingIPPlugin) Release(r *ReleaseRequest) error {
 	caller := "by " + getCaller()
 	k := r.KeyObj
@@ -240,12 +263,8 @@ func (p *FloatingIPPlugin) Release(r *ReleaseRequest) error {
 	glog.Infof("%s is not running, %s, %s", k.KeyInDB, reason, caller)
 	if p.cloudProvider != nil && fip.NodeName != "" {
 		// For tapp and sts pod, nodeName will be updated to empty after unassigning
-		glog.Infof("UnAssignIP nodeName %s, ip %s, key %s %s", fip.NodeName, r.IP.String(), k.KeyInDB, caller)
-		if err := p.cloudProviderUnAssignIP(&rpc.UnAssignIPRequest{
-			NodeName:  fip.NodeName,
-			IPAddress: fip.IP.String(),
-		}); err != nil {
-			return fmt.Errorf("UnAssignIP nodeName %s, ip %s: %v", fip.NodeName, fip.IP.String(), err)
+		if err := p.unassignIPsOfKey(k.KeyInDB, caller); err != nil {
+			return err
 		}
 		// for tapp and sts pod, we need to clean its node attr and uid
 		if err := p.reserveIP(k.KeyInDB, k.KeyInDB, "after UnAssignIP "+caller); err != nil {
